@@ -4,7 +4,8 @@
    from /repo's sources on every run; the interpreting functions are in C06/Model.v. *)
 From Coq Require Import Ascii String ZArith NArith List Bool.
 Import ListNotations.
-From Cffi Require Import C06.Model C06.Gen C06.Proofs.
+From Cffi Require Import C06.Model C06.Gen C06.Proofs C06.Compose07.
+From Cffi Require C07.Model C07.PyModel.
 Open Scope Z_scope.
 
 (* PRIM_* (cffi_opcode.py) and _CFFI_PRIM_* (parse_c_type.h) are the same list of (name, value), with
@@ -102,6 +103,30 @@ Theorem C06_std_typename_matches_python : forall name,
                search_std c_prim c_std_typename name = Some i.
 Proof. exact std_typename_matches_python. Qed.
 Print Assumptions C06_std_typename_matches_python.
+
+(* ---- C06 x C07: the primitive layer of the type-string parser model (coq/C07) is the regenerated one.
+   C07.Model.search_standard_typename (a hand-written 36-row table used by the parser model and by every
+   C07/C08/C30 theorem) returns, for ALL strings, what the regenerated switch cascade of
+   search_standard_typename() returns *)
+Theorem C06_C07_std_typename_same : forall s,
+  C07.Model.search_standard_typename s = search_std c_prim c_std_typename s.
+Proof. exact std_typename_same. Qed.
+Print Assumptions C06_C07_std_typename_same.
+
+(* the 18 PRIM_* constants C07.Model defines by hand (prim7: name, C07's value) are the _CFFI_PRIM_* of
+   parse_c_type.h and the PRIM_* of cffi_opcode.py *)
+Theorem C06_C07_prim_constants : forall n v, In (n, v) prim7 ->
+  assoc n c_prim = Some v /\ assoc n py_prim = Some v.
+Proof. exact prim_constants. Qed.
+Print Assumptions C06_C07_prim_constants.
+
+(* every row (words, index) of C07.PyModel.py_prims (the Python parser model's primitive table): the name
+   ' '.join(words) has that index through cffi_opcode.PRIMITIVE_TO_INDEX / PRIM_* (void: PRIM_VOID; the two
+   `_Complex` spellings through the COMMON_TYPES aliases, hand-copied in Compose07.py_aliases) *)
+Theorem C06_C07_py_prims : forall ws v, In (ws, v) C07.PyModel.py_prims ->
+  py_index_of (spell_words ws) = Some v.
+Proof. exact py_prims_same. Qed.
+Print Assumptions C06_C07_py_prims.
 
 (* non-vacuity *)
 Example C06_example_search :
